@@ -28,6 +28,8 @@ type pacDesc struct {
 	Default   string            `json:"default"`    // for hosts not in the table
 	ErrHosts  []string          `json:"err_hosts"`  // hosts for which the script throws
 	NumHosts  []string          `json:"num_hosts"`  // hosts for which the script returns a number
+	// hosts whose answer depends on the URL, not only on the host: [substring, value if url contains it, value otherwise]
+	ByURL map[string][3]string `json:"by_url,omitempty"`
 }
 
 type cfgDesc struct {
@@ -55,13 +57,19 @@ func (p *pacDesc) script() string {
 	}
 	ej, _ := json.Marshal(e)
 	nj, _ := json.Marshal(n)
+	bu := p.ByURL
+	if bu == nil {
+		bu = map[string][3]string{}
+	}
+	bj, _ := json.Marshal(bu)
 	return fmt.Sprintf(`function FindProxyForURL(url, host) {
-  var t = %s; var e = %s; var n = %s;
+  var t = %s; var e = %s; var n = %s; var bu = %s;
+  if (Object.prototype.hasOwnProperty.call(bu, host)) { return url.indexOf(bu[host][0]) >= 0 ? bu[host][1] : bu[host][2]; }
   if (Object.prototype.hasOwnProperty.call(e, host)) { throw new Error("boom"); }
   if (Object.prototype.hasOwnProperty.call(n, host)) { return 5; }
   if (Object.prototype.hasOwnProperty.call(t, host)) { return t[host]; }
   return %s;
-}`, t, ej, nj, d)
+}`, t, ej, nj, bj, d)
 }
 
 // recordingPAC is what command/run's LoggingPACResolver is: a pass-through that lets us see the oracle's answer.
@@ -74,12 +82,19 @@ type recordingPAC struct {
 type pacCall struct {
 	URL, Hostname, Result string
 	Err                   bool
+	HostArg               string   // the hostname argument as passed ("" = derive from the URL)
+	U                     *url.URL `json:"-"`
 }
 
 func (r *recordingPAC) FindProxyForURL(u *url.URL, hostname string) (string, error) {
 	s, err := r.inner.FindProxyForURL(u, hostname)
 	r.mu.Lock()
-	r.calls = append(r.calls, pacCall{URL: u.String(), Hostname: u.Hostname(), Result: s, Err: err != nil})
+	asked := hostname // what the script is given as `host` (pac.go: empty means u.Hostname())
+	if asked == "" {
+		asked = u.Hostname()
+	}
+	uc := *u
+	r.calls = append(r.calls, pacCall{URL: u.String(), Hostname: asked, Result: s, Err: err != nil, HostArg: hostname, U: &uc})
 	r.mu.Unlock()
 	return s, err
 }
@@ -121,6 +136,7 @@ type rig struct {
 	rt      *http.Transport
 	pac     *recordingPAC
 	direct  *recordingMatcher
+	script  string
 	rules   []forwarder.HostPortPair
 	addr    string
 	cancel  context.CancelFunc
@@ -174,7 +190,8 @@ func newRig(desc cfgDesc, w *world) (*rig, error) {
 	}
 	var pr forwarder.PACResolver
 	if desc.PAC != nil {
-		pool, err := pac.NewProxyResolverPool(&pac.ProxyResolverConfig{Script: desc.PAC.script()}, nil)
+		r.script = desc.PAC.script()
+		pool, err := pac.NewProxyResolverPool(&pac.ProxyResolverConfig{Script: r.script}, nil)
 		if err != nil {
 			return nil, fmt.Errorf("pac: %w", err)
 		}
@@ -351,4 +368,31 @@ func (r *rig) proxyURL(kind int, scheme, urlhost string) (res string, calls []pa
 	default:
 		return u.Scheme + "://" + u.Host, calls, margs
 	}
+}
+
+// freshPAC evaluates the configuration's PAC script on ONE query with a resolver instance that has no history:
+// the answer the configuration gives "for that URL", whatever was looked up before.
+func (r *rig) freshPAC(u *url.URL, hostname string) (string, error) {
+	pr, err := pac.NewProxyResolver(&pac.ProxyResolverConfig{Script: r.script}, nil)
+	if err != nil {
+		return "", err
+	}
+	return pr.FindProxyForURL(u, hostname)
+}
+
+// freshDirect evaluates the direct-domains list with a matcher built for this one question.
+func (r *rig) freshDirect(hostname string) (bool, error) {
+	var items []ruleset.RegexpListItem
+	for _, s := range r.desc.Direct {
+		it, err := ruleset.ParseRegexpListItem(s)
+		if err != nil {
+			return false, err
+		}
+		items = append(items, it)
+	}
+	m, err := ruleset.NewRegexpMatcherFromList(items)
+	if err != nil {
+		return false, err
+	}
+	return m.Match(hostname), nil
 }
